@@ -82,7 +82,7 @@ class FSA:
     built-in methods.
 
     """
-    def __init__(self, vert_dict={}, start_vertices=[], graph_dict=True):
+    def __init__(self, vert_dict={}, start_vertices=(), graph_dict=True):
         """
 
         Parameters
@@ -123,7 +123,10 @@ class FSA:
             self._build_in_dict()
             self._build_graph_dict()
 
-        self.start_vertices = start_vertices
+        # every automaton owns its list of start states: do not share
+        # it with the caller, with another automaton or with the
+        # default argument
+        self.start_vertices = list(start_vertices)
 
     @staticmethod
     def _defaultify_out_dict(out_dict):
